@@ -180,6 +180,7 @@ struct ListWorld : World {
             if (a2 == 2) {
                 int64_t v;
                 { InSut s; v = kind == K_QUEUE ? (pop ? qq->popint(qq) : qq->getint(qq)) : (pop ? qs->popint(qs) : qs->getint(qs)); }
+                if (v == 0 && sim_fault_fired() > 0) return R_fail("int:0");    // 0 is the documented failure value of popint/getint
                 return R_ok("int:" + num((long long)v));
             }
             if (a2 == 1) {
